@@ -71,7 +71,7 @@ var treeNames = []string{"none", "a", "a{b}", "a[perm]", "a{b[perm]}", "a(non-ex
 // executable (brigadier reports these as "unknown or incomplete command").
 var incompleteLines = map[int]map[string]bool{5: {"a": true}}
 
-var lines = []string{"a", "a b", "a x", "a 5", "b", "", " a", "a ", "A", "a  b"}
+var lines = []string{"a", "a b", "a x", "a 5", "b", "", " a", "a ", "A", "a  b", "/a", "/a b", "//b"}
 
 type runRec struct {
 	runs []string // "node:input"
